@@ -82,9 +82,9 @@ type model struct {
 	// the number of notes appended, now and when the digest was last computed
 	code, dCode   string
 	notes, dNotes int
-	sigs     []snap
-	stamps   [][2]string
-	links    [][2]string
+	sigs          []snap
+	stamps        [][2]string
+	links         [][2]string
 }
 
 type snap struct {
